@@ -82,13 +82,19 @@ def parse_model(out):
 
 
 def prove(pc, hyp, goal, timeout_s=10, logic=None, portfolio=False, fresh=True):
-    """returns (status, model, seconds, solver) ; status unsat = goal holds"""
+    """returns (status, model, seconds, solver) ; status unsat = goal holds.
+    in-process z3 with the logic-specific tactic first; on unknown (portfolio=True) the external binaries"""
     assertions = list(pc) + list(hyp) + [z3.Not(goal)]
-    r, m, dt = check_api(assertions, min(timeout_s, 3.0) if portfolio else timeout_s, None)
+    try:
+        r, m, dt = check_api(assertions, timeout_s, logic)
+    except z3.Z3Exception:
+        r, m, dt = check_api(assertions, timeout_s, None)
     if r != 'unknown' or not portfolio: return r, m, dt, 'z3-5.1(api)'
     tot = dt
     txt = to_smt2(assertions, logic)
-    for binary, lg in ((Z3_OLD, logic), (Z3_NEW, logic)):
+    order = [Z3_OLD, Z3_NEW, CVC5] if (logic or '').endswith('NRA') else [CVC5, Z3_NEW, Z3_OLD]
+    for binary in order:
+        if binary == CVC5 and ('fp.to_ieee_bv' in txt or 'to_fp' in txt and False): continue
         r, m, dt = run_cli(binary, txt, timeout_s)
         tot += dt
         if r == 'sat':
